@@ -20,11 +20,17 @@ func main() {
 		fmt.Println("usage: chainmc <C01|C05|C08|C09|C10|C14|C17> [--tier t] [--replay f]")
 		os.Exit(2)
 	}
+	if os.Args[1] == "c01-crash-child" {
+		c01crashChild()
+	}
 	r := ev.Parse("model_checking")
 	switch os.Args[1] {
 	case "C01", "C05", "C10":
 		if ph := os.Getenv("VERIF_PHASE"); os.Args[1] == "C01" && (ph == "conc" || ph == "race") {
 			runC01Conc(r)
+		}
+		if os.Args[1] == "C01" && os.Getenv("VERIF_PHASE") == "crash" {
+			runC01Crash(r)
 		}
 		runHistories(r)
 	case "C08":
